@@ -26,6 +26,9 @@ def run(prop, tier, seed, scratch, replay=None):
         if m.get("sig", "").startswith("chainsync:"):
             from checks import chainsync
             return chainsync.run(prop, tier, seed, scratch, replay)
+        if m.get("sig", "").startswith("spend:"):
+            from checks import spend
+            return spend.run(prop, tier, seed, scratch, replay)
         with open(traces, "w") as f:
             f.write(json.dumps(m["behaviour"]) + "\n")
         # graphs come from a minimal TLC run
@@ -89,6 +92,14 @@ def run(prop, tier, seed, scratch, replay=None):
                                "-every", every, "-offset", seed % every, "-workers", vlib.NCPU], timeout=3600)
         wl = vlib.load_report(wrep)
         res.add_report(wl)
+    sp = None
+    if prop in ("C01", "C13"):
+        # wallet-level pass: spec/Spend.tla walks (receipts on several accounts and key scopes, blocks, created
+        # transactions with change, leases, restarts) on a real wallet.Wallet; C01 owns CalculateBalance / ListUnspent,
+        # C13 owns GetTransactions (both directions) / ListAllTransactions
+        from checks import spend
+        sp = spend.wallet_pass(prop, tier, seed, scratch, 6 if tier == "quick" else 120)
+        res.add_report(sp)
     if rep["traces"] != bfs["ntraces"] + sim["ntraces"]:
         res.errors.append("driver replayed %d of %d behaviours" % (rep["traces"], bfs["ntraces"] + sim["ntraces"]))
     res.coverage = {
@@ -110,6 +121,12 @@ def run(prop, tier, seed, scratch, replay=None):
     if impl:
         res.coverage["bucket_layer_refinement"] = {"spec": "spec/TxStoreImpl.tla", "cfg": icfg, "distinct_states": impl["distinct"],
                                                    "generated": impl["generated"], "invariant": "ImplInv", "wall_s": impl["wall_s"]}
+    if sp:
+        res.coverage["wallet_level_pass"] = {"spec": "spec/Spend.tla (random walks)", "behaviours_replayed": sp["traces"],
+                                              "comparisons": sp["checks"], "distinct_nontrivial": sp["distinct_nontrivial"],
+                                              "observed_through": "CalculateBalance, ListUnspent" if prop == "C01"
+                                              else "GetTransactions (ascending and descending), ListAllTransactions"}
+        res.coverage["traces_validated_against_impl"] += sp["traces"]
     if wl:
         res.coverage["wallet_level_pass"] = {"behaviours_replayed": wl["traces"], "comparisons": wl["checks"],
                                               "distinct_nontrivial": wl["distinct_nontrivial"]}
